@@ -11,5 +11,7 @@ Lemma tie_frame_consts :
   gen_ld_enc_field_len = 4 /\ gen_ld_enc_adjust_neg = 4 /\ gen_ld_enc_adjust_is_negative = true /\
   gen_ld_enc_max_minus = 4 /\
   gen_ld_dec_field_len = 4 /\ gen_ld_dec_adjust_neg = 4 /\ gen_ld_dec_adjust_is_negative = true /\
-  gen_ld_dec_max_minus = 0 /\ gen_set_encoder_minus = 4.
+  gen_ld_dec_max_minus = 0 /\ gen_set_encoder_minus = 4 /\
+  (* frames we write obey the peer's max-frame-size, frames we read are checked against our own *)
+  gen_encoder_limit_is_remote = true /\ gen_decoder_limit_is_remote = false.
 Proof. repeat split; reflexivity. Qed.
